@@ -76,7 +76,7 @@ func render(w *Workload) rendered {
 		var b strings.Builder
 		ln := 1
 		line := func(t string) { b.WriteString(t); b.WriteString("\n"); ln++ }
-		line(fmt.Sprintf("add_key(mark_%s, 1)", strings.TrimSuffix(s.Name, ".p")))
+		line(fmt.Sprintf("add_key(mark_%s, 1)", ident(s.Name)))
 		bad := func() {
 			switch s.Kind {
 			case "parse_err":
@@ -167,6 +167,15 @@ func gen(r *simrt.RNG) Workload {
 	names := make([]string, n)
 	for i := range names {
 		names[i] = fmt.Sprintf("s%d.p", i)
+	}
+	if r.Intn(4) == 0 {
+		// near-colliding names: prefixes, case, extensions, path-like names
+		pool := []string{"s1.p", "s10.p", "S1.p", "s1.ppl", "s1.p.p", "a.p", "ab.p", "lib/a.p", "zz.p1", "s1"}
+		for i := range names {
+			j := r.Intn(len(pool))
+			names[i] = pool[j]
+			pool = append(pool[:j], pool[j+1:]...)
+		}
 	}
 	pBroken := []float64{0, 0.1, 0.25}[r.Intn(3)]
 	pMissing := []float64{0, 0.05, 0.15}[r.Intn(3)]
@@ -361,9 +370,13 @@ func (Prop) Run(p *core.Plan) *core.Result {
 			input.InitPt(pt, "m", nil, map[string]any{"message": "x"}, world.BaseTime)
 			rerr := sc.Run(pt, nil)
 			var marks []string
+			byIdent := map[string]string{}
+			for _, x := range w.Scripts {
+				byIdent[ident(x.Name)] = x.Name
+			}
 			for k := range pt.Fields {
 				if strings.HasPrefix(k, "mark_") {
-					marks = append(marks, strings.TrimPrefix(k, "mark_")+".p")
+					marks = append(marks, byIdent[strings.TrimPrefix(k, "mark_")])
 				}
 			}
 			input.PutPoint(pt)
@@ -568,6 +581,23 @@ func validChain(s string, pe *errchain.PlError, m *model, rd rendered, own map[s
 	}
 	sort.Strings(reasons)
 	return strings.Join(reasons, " | ")
+}
+
+// ident turns a script name into an identifier fragment (distinct names stay distinct).
+func ident(name string) string {
+	var b strings.Builder
+	for _, c := range name {
+		switch {
+		case c >= 'a' && c <= 'z', c >= '0' && c <= '9':
+			b.WriteRune(c)
+		case c >= 'A' && c <= 'Z':
+			b.WriteString("U")
+			b.WriteRune(c)
+		default:
+			fmt.Fprintf(&b, "_%d_", c)
+		}
+	}
+	return b.String()
 }
 
 func describe(w *Workload) string {
